@@ -1288,7 +1288,10 @@ mmx_rule_convssslw (OrcCompiler *p, void *user, OrcInstruction *insn)
   const int src = p->vars[insn->src_args[0]].alloc;
   const int dest = p->vars[insn->dest_args[0]].alloc;
 
-  orc_mmx_emit_packssdw (p, src, dest);
+  if (src != dest) {
+    orc_mmx_emit_movq (p, src, dest);
+  }
+  orc_mmx_emit_packssdw (p, dest, dest);
 }
 
 #ifndef MMX
@@ -1298,7 +1301,10 @@ mmx_rule_convsuslw (OrcCompiler *p, void *user, OrcInstruction *insn)
   const int src = p->vars[insn->src_args[0]].alloc;
   const int dest = p->vars[insn->dest_args[0]].alloc;
 
-  orc_mmx_emit_packusdw (p, src, dest);
+  if (src != dest) {
+    orc_mmx_emit_movq (p, src, dest);
+  }
+  orc_mmx_emit_packusdw (p, dest, dest);
 }
 #endif
 
